@@ -42,6 +42,10 @@ def _codes_of(mod):
                 walk(c)
 
     for v in vars(mod).values():
+        w = getattr(v, "__wrapped__", None)  # decorated functions (e.g. @with_rust_backend) keep the body here
+        while isinstance(w, types.FunctionType):
+            walk(w.__code__)
+            w = getattr(w, "__wrapped__", None)
         if isinstance(v, types.FunctionType) and v.__module__ == mod.__name__:
             walk(v.__code__)
         elif isinstance(v, type) and v.__module__ == mod.__name__:
